@@ -8,7 +8,10 @@ elements: the token list is made of real lexer tokens, each child node is a
 placeholder that stands for a fixed number of tokens (the `_walk` hook echoes
 and consumes exactly those), the spacing hook returns nothing.  The handler
 must echo every token of the node once, in order, and leave the cursor behind
-the last one."""
+the last one.  Every shape is evaluated twice: tokens back to back (spacing
+stand-in), and with a space, line-end or comment token before every token and
+the writer's own `_get_code_for_spaces` (a handler that looks at the token
+under the cursor before skipping those is wrong for such layouts)."""
 from ..absint import cx as CX
 from ..core import AnalysisError
 
@@ -23,10 +26,15 @@ class Echo:
         self.model = ctx.model
         self.cls = self.model.cls(L + ':LuaASTEchoWriter')
 
-    def run(self, nodetype, build):
+    def run(self, nodetype, build, spaced=False):
         """build(h) -> (node fields dict, token spec list); h gives
         h.child(n_tokens, spec...) and h.tok(kind, data)
-        -> (emitted bytes, final pos, n tokens) | ('raise', name)"""
+        -> (emitted bytes, final pos, n tokens) | ('raise', name)
+        spaced: a space, line end or comment token stands before every token
+        (a child's leading one belongs to the child, as in the parser's
+        spans) and the writer's own `_get_code_for_spaces` is evaluated
+        instead of a stand-in -- a handler that peeks at the cursor without
+        skipping them first is seen"""
         cxi = CX.Cx(self.model, self.ctx.consts)
         node_base = CX.StubClass('Node')
         stubs = {}
@@ -40,8 +48,15 @@ class Echo:
         child_cls = stub('Child')
         toks = []
 
+        SPACERS = (('TokSpace', b' '), ('TokNewline', b'\n'),
+                   ('TokComment', b'--[[c]]'))
+
         class H:
             def tok(self, kind, data):
+                if spaced:
+                    sk, sd = SPACERS[len(toks) % 3]
+                    toks.append(cxi.call(CX.ClassVal(
+                        self_model.cls(LEX + sk)), [sd], {}))
                 t = cxi.call(CX.ClassVal(
                     self_model.cls(LEX + kind)), [data], {})
                 toks.append(t)
@@ -49,9 +64,11 @@ class Echo:
 
             def child(self, specs):
                 """a child node standing for the given tokens"""
-                mine = [self.tok(k, d) for (k, d) in specs]
+                before = len(toks)
+                for (k, d) in specs:
+                    self.tok(k, d)
                 c = CX.Obj(child_cls)
-                c.attrs['n_tokens'] = len(mine)
+                c.attrs['n_tokens'] = len(toks) - before
                 c.attrs['start_pos'] = 0
                 c.attrs['end_pos'] = 0
                 return c
@@ -75,8 +92,9 @@ class Echo:
         cxi.hooks = {
             L + ':LuaASTEchoWriter._walk': walk,
             L + ':BaseASTWalker._walk': walk,
-            L + ':LuaASTEchoWriter._get_code_for_spaces': spaces,
         }
+        if not spaced:
+            cxi.hooks[L + ':LuaASTEchoWriter._get_code_for_spaces'] = spaces
 
         def go():
             del toks[:]
@@ -250,19 +268,22 @@ def report(ctx, res, rule='R-C09-agree'):
                 res.vanished(rule, L + ':LuaASTEchoWriter._walk_' + nt,
                              'handler', 'missing')
                 continue
-            r = ev.run(nt, build)
             ent = by_type.setdefault(nt, [m, 0, []])
-            ent[1] += 1
-            if r[0] == 'raise':
-                ent[2].append('{}: raises {}'.format(what, r[1]))
-                continue
-            out, pos, n, want = r
-            if out != want:
-                ent[2].append('{}: writes {!r} for the tokens {!r}'.format(
-                    what, out, want))
-            elif pos != n:
-                ent[2].append('{}: the cursor ends at token {} of {}'.format(
-                    what, pos, n))
+            for spaced in (False, True):
+                r = ev.run(nt, build, spaced=spaced)
+                ent[1] += 1
+                tag = what + (' (space / line end / comment before every '
+                              'token)' if spaced else '')
+                if r[0] == 'raise':
+                    ent[2].append('{}: raises {}'.format(tag, r[1]))
+                    continue
+                out, pos, n, want = r
+                if out != want:
+                    ent[2].append('{}: writes {!r} for the tokens {!r}'
+                                  .format(tag, out, want))
+                elif pos != n:
+                    ent[2].append('{}: the cursor ends at token {} of {}'
+                                  .format(tag, pos, n))
     except AnalysisError as e:
         res.info(rule, L + ':LuaASTEchoWriter', 'list handlers evaluated',
                  'not followed: ' + str(e)[:140])
